@@ -400,6 +400,10 @@ func compareEmittedMode(c *ev.Ctx, tag string, pkgs []tvPackage, goRes map[strin
 			// an emitted definition that Coq's grammar (as far as vparse knows it) cannot read
 			dis = append(dis, tvDisagreement{Pkg: p.Name, Entry: pe.Name, Kind: "unparsable", Detail: pe.Err.Error(), Keys: keysList(p.Keys)})
 		}
+		for _, pr := range defOrderProblems(prog) {
+			st.Compared++
+			dis = append(dis, tvDisagreement{Pkg: p.Name, Entry: pr[0], Kind: "use-before-def", Detail: pr[1], Keys: keysList(p.Keys)})
+		}
 		l.Prefix = p.Name + "."
 		l.AddFile(prog)
 		defs := map[string]bool{}
@@ -772,4 +776,59 @@ func c01Boundary(c *ev.Ctx) (int, int) {
 			map[string]string{"gen.go": src, "emitted.v": gout.files[d.Pkg], "entry.txt": d.Entry})
 	}
 	return len(its), accepted
+}
+
+// defOrderProblems: definitions of an emitted file that mention a same-file definition which only comes later (and is
+// not part of a dependency cycle with them), or that mention themselves as a global. Returns (definition, description).
+func defOrderProblems(prog *vparse.File) [][2]string {
+	pos := map[string]int{}
+	for i, d := range prog.Decls {
+		if d.Name != "" {
+			if _, seen := pos[d.Name]; !seen {
+				pos[d.Name] = i
+			}
+		}
+	}
+	ment := map[string]map[string]bool{}
+	for _, d := range prog.Decls {
+		if d.Body == nil {
+			continue
+		}
+		ment[d.Name] = map[string]bool{}
+		d.Body.Walk(func(n *vparse.Node) {
+			if n.Kind == "id" {
+				if _, isDef := pos[n.Name]; isDef {
+					ment[d.Name][n.Name] = true
+				}
+			}
+		})
+	}
+	var reach func(from, to string, seen map[string]bool) bool
+	reach = func(from, to string, seen map[string]bool) bool {
+		if from == to {
+			return true
+		}
+		if seen[from] {
+			return false
+		}
+		seen[from] = true
+		for k := range ment[from] {
+			if reach(k, to, seen) {
+				return true
+			}
+		}
+		return false
+	}
+	var out [][2]string
+	for dn, ms := range ment {
+		for mn := range ms {
+			if mn == dn {
+				out = append(out, [2]string{dn, "Definition " + dn + " refers to itself as a global identifier instead of its recursive binder"})
+			} else if pos[mn] > pos[dn] && !reach(mn, dn, map[string]bool{}) {
+				out = append(out, [2]string{dn, "Definition " + dn + " mentions " + mn + ", which is only defined further down in the file (Coq reads top-down: the file is not a well-formed development)"})
+			}
+		}
+	}
+	sort.Slice(out, func(i, j int) bool { return out[i][0]+out[i][1] < out[j][0]+out[j][1] })
+	return out
 }
